@@ -192,6 +192,27 @@ func (w *World) Download(repo, id string, concurrency int, pred func(string) (bo
 	return ReadAll(dst)
 }
 
+// DownloadOver publishes a bundle into a directory that already holds the given files.
+func (w *World) DownloadOver(repo, id string, pre []File) ([]File, error) {
+	_ = os.MkdirAll("/root/.cache/verif/tmp", 0o755)
+	tmp, err := os.MkdirTemp("/root/.cache/verif/tmp", "dlo")
+	if err != nil {
+		return nil, err
+	}
+	defer os.RemoveAll(tmp)
+	dst := localfs.New(afero.NewBasePathFs(afero.NewOsFs(), tmp), localfs.WithRetry(false), localfs.WithLogger(Nop))
+	for _, f := range pre {
+		if err := dst.Put(context.Background(), f.Name, bytes.NewReader(f.Data), storage.OverWrite); err != nil {
+			return nil, err
+		}
+	}
+	b := core.NewBundle(core.Repo(repo), core.ContextStores(w.Stores()), core.BundleID(id), core.ConsumableStore(dst), core.Logger(Nop))
+	if err := core.Publish(context.Background(), b); err != nil {
+		return nil, err
+	}
+	return ReadAll(dst)
+}
+
 // MetaObj is the canonical, decoded form of one metadata object.
 type MetaObj struct {
 	Key     string  `json:"key"`
